@@ -86,7 +86,7 @@ class _Res:
     aclose_exc: str | None = None
 
 
-def _execute(parent: World, scn: dict, cut: int | None) -> _Res:
+def _execute_async(parent: World, scn: dict, cut: int | None) -> _Res:
     w = World(parent=parent)
     w.quiet = True
     net = SimNet(w)
@@ -182,6 +182,108 @@ def _execute(parent: World, scn: dict, cut: int | None) -> _Res:
     return res
 
 
+def _execute_sync(parent: World, scn: dict, cut: int | None) -> _Res:
+    """same scenario against the blocking SSLStreamTransport over a real socketpair (DESIGN §1)"""
+    import math
+
+    from easynetwork.lowlevel.api_sync.transports.socket import SSLStreamTransport
+
+    from vsim.harness import sync_engine
+    from vsim.tls import RealTLSPeer
+
+    w = World(parent=parent)
+    w.quiet = True
+    lib_server = scn["lib_server"]
+    peer = RealTLSPeer(w, server_side=not lib_server, version=scn["version"], sizes=scn["p2l_sizes"], delays=scn["p2l_delays"])
+    peer.fin_at = cut
+    res = _Res()
+    sizes = scn["sizes"]
+    expected = b"".join(_payload(i, n) for i, n in enumerate(sizes))
+
+    def after_handshake() -> None:
+        t = 0.0
+        for i, n in enumerate(sizes):
+            t += scn["gaps"][i] / 64.0
+            w.after(t, lambda i=i, n=n: peer.write(_payload(i, n)))
+        if scn["closer"] == "peer":
+            t += scn["gaps"][-1] / 64.0
+            w.after(t, lambda: peer.close(notify=True))
+        else:
+            peer.auto_close_reply = True
+
+    peer.on_handshake_done = after_handshake
+    tr = None
+    try:
+        with sync_engine(w) as make_selector:
+            try:
+                try:
+                    tr = SSLStreamTransport(
+                        peer.lib_sock,
+                        make_context(lib_server, scn["version"]),
+                        retry_interval=scn.get("retry_interval", math.inf),
+                        server_side=lib_server,
+                        server_hostname=None if lib_server else "sim.host",
+                        standard_compatible=scn["std"],
+                        selector_factory=make_selector,
+                    )
+                except Exception as e:
+                    res.wrap = "exc:" + type(e).__name__
+                    peer.pump()
+                    res.tr_closed = peer.fin_seen
+                    res.lib_sock_closed = peer.fin_seen
+                    return res
+                res.wrap = "ok"
+                got = bytearray()
+                buf = bytearray(scn["bufsize"])
+                while True:
+                    if scn["closer"] == "lib" and len(got) >= len(expected):
+                        res.end = ("lib-close",)
+                        break
+                    try:
+                        if scn["use_recv_into"]:
+                            n = tr.recv_into(buf, math.inf)
+                            data = bytes(buf[:n])
+                        else:
+                            data = tr.recv(scn["bufsize"], math.inf)
+                    except Exception as e:
+                        res.end = ("exc", type(e).__name__)
+                        break
+                    if not data:
+                        res.end = ("eof",)
+                        break
+                    got += data
+                res.plain = bytes(got)
+                try:
+                    tr.close()
+                except Exception as e:
+                    res.aclose_exc = type(e).__name__
+                res.tls_closing = tr.is_closed()
+                t0 = w.now
+                try:
+                    tr.close()
+                except Exception as e:
+                    res.aclose_exc = "second:" + type(e).__name__
+                res.second_close_ok = w.now == t0
+                peer.pump()
+                res.lib_sock_closed = peer.fin_seen
+            except Deadlock:
+                res.blocked = True
+    finally:
+        res.peer_saw_cn = peer.engine.saw_close_notify
+        res.peer_error = type(peer.engine.error).__name__ if peer.engine.error is not None else None
+        res.total = len(peer.wire_out)
+        res.hs_end = peer.hs_end
+        res.wire = bytes(peer.wire_out)
+        if tr is not None and not tr.is_closed():
+            try:
+                tr.close()
+            except BaseException:
+                pass
+        peer.dispose()
+        parent.counters["offsets"] += 1
+    return res
+
+
 def _record_ends(wire: bytes) -> list[int]:
     out = []
     pos = 0
@@ -196,7 +298,8 @@ def _mode(scn: dict) -> str:
     return f"{'srv' if scn['lib_server'] else 'cli'}-tls{scn['version']}-{'std' if scn['std'] else 'nonstd'}"
 
 
-def _h_async(world: World, tier: str) -> None:
+def _h_async(world: World, tier: str, engine: str = "aio") -> None:
+    _execute = _execute_async if engine == "aio" else _execute_sync
     scn = _draw(world)
     world.notes.update(scenario={k: v for k, v in scn.items()})
     sizes = scn["sizes"]
@@ -206,21 +309,21 @@ def _h_async(world: World, tier: str) -> None:
     desc = f"scenario={scn}"
     # ---------------- base run: no truncation
     if base.blocked:
-        raise Violation("no-cut/blocked", f"deadlock without any cut; {desc}", key=f"C09/aio/{mode}/no-cut/blocked")
+        raise Violation("no-cut/blocked", f"deadlock without any cut; {desc}", key=f"C09/{engine}/{mode}/no-cut/blocked")
     if base.wrap != "ok":
-        raise Violation("no-cut/handshake", f"wrap() failed without any cut: {base.wrap}; {desc}", key=f"C09/aio/{mode}/no-cut/handshake")
+        raise Violation("no-cut/handshake", f"wrap() failed without any cut: {base.wrap}; {desc}", key=f"C09/{engine}/{mode}/no-cut/handshake")
     if base.plain != expected:
-        raise Violation("no-cut/plaintext", f"read {len(base.plain)} bytes, expected {len(expected)}; {desc}", key=f"C09/aio/{mode}/no-cut/plaintext")
+        raise Violation("no-cut/plaintext", f"read {len(base.plain)} bytes, expected {len(expected)}; {desc}", key=f"C09/{engine}/{mode}/no-cut/plaintext")
     if scn["closer"] == "peer" and base.end != ("eof",):
-        raise Violation("no-cut/clean-eof", f"peer sent close_notify then FIN, reader got {base.end}; {desc}", key=f"C09/aio/{mode}/no-cut/clean-eof")
+        raise Violation("no-cut/clean-eof", f"peer sent close_notify then FIN, reader got {base.end}; {desc}", key=f"C09/{engine}/{mode}/no-cut/clean-eof")
     if scn["std"]:
         if not base.peer_saw_cn:
-            raise Violation("close-sends-notify", f"standard-compatible aclose(): reference peer never saw a close_notify (peer error={base.peer_error}); {desc}", key=f"C09/aio/{mode}/close-sends-notify")
+            raise Violation("close-sends-notify", f"standard-compatible aclose(): reference peer never saw a close_notify (peer error={base.peer_error}); {desc}", key=f"C09/{engine}/{mode}/close-sends-notify")
     else:
         if base.peer_saw_cn and scn["closer"] == "lib":
-            raise Violation("nonstd-close-skips-notify", f"standard_compatible=False: aclose() still sent a close_notify; {desc}", key=f"C09/aio/{mode}/nonstd-close-skips-notify")
+            raise Violation("nonstd-close-skips-notify", f"standard_compatible=False: aclose() still sent a close_notify; {desc}", key=f"C09/{engine}/{mode}/nonstd-close-skips-notify")
     if not base.lib_sock_closed or not base.tls_closing or not base.second_close_ok:
-        raise Violation("no-cut/closed", f"after aclose(): socket closed={base.lib_sock_closed} is_closing={base.tls_closing} second close prompt={base.second_close_ok}; {desc}", key=f"C09/aio/{mode}/no-cut/closed")
+        raise Violation("no-cut/closed", f"after aclose(): socket closed={base.lib_sock_closed} is_closing={base.tls_closing} second close prompt={base.second_close_ok}; {desc}", key=f"C09/{engine}/{mode}/no-cut/closed")
     world.progress(len(sizes))
     hs_end = base.hs_end
     total = base.total
@@ -256,16 +359,16 @@ def _h_async(world: World, tier: str) -> None:
             raise Violation("harness/length-drift", f"peer produced {r.total} cipher bytes in a swept run, base {total}", key="C09/harness/length-drift")
         world.fault("fin_at")
         if r.blocked:
-            raise Violation("cut/blocked", f"reader blocks forever; {where}", key=f"C09/aio/{mode}/cut/blocked")
+            raise Violation("cut/blocked", f"reader blocks forever; {where}", key=f"C09/{engine}/{mode}/cut/blocked")
         if k < hs_end:
             # inside the handshake: wrap() fails, wrapped transport closed — both modes
             if r.wrap == "ok":
-                raise Violation("cut/handshake-succeeded", f"wrap() returned although the peer's handshake bytes were cut; {where}", key=f"C09/aio/{mode}/cut/handshake-succeeded")
+                raise Violation("cut/handshake-succeeded", f"wrap() returned although the peer's handshake bytes were cut; {where}", key=f"C09/{engine}/{mode}/cut/handshake-succeeded")
             if not r.tr_closed or not r.lib_sock_closed:
-                raise Violation("cut/handshake-leaves-open", f"failed wrap() left the wrapped transport open (is_closing={r.tr_closed}, socket closed={r.lib_sock_closed}); {where}", key=f"C09/aio/{mode}/cut/handshake-leaves-open")
+                raise Violation("cut/handshake-leaves-open", f"failed wrap() left the wrapped transport open (is_closing={r.tr_closed}, socket closed={r.lib_sock_closed}); {where}", key=f"C09/{engine}/{mode}/cut/handshake-leaves-open")
             continue
         if r.wrap != "ok":
-            raise Violation("cut/handshake-failed", f"wrap() failed ({r.wrap}) although all handshake bytes were delivered; {where}", key=f"C09/aio/{mode}/cut/handshake-failed")
+            raise Violation("cut/handshake-failed", f"wrap() failed ({r.wrap}) although all handshake bytes were delivered; {where}", key=f"C09/{engine}/{mode}/cut/handshake-failed")
         world.probe("cut-after-handshake")
         # data returned before the cut: prefix of plaintext made of whole records
         whole = 0
@@ -273,22 +376,22 @@ def _h_async(world: World, tier: str) -> None:
             if e <= k:
                 whole += sizes[i]
         if not expected.startswith(r.plain) or len(r.plain) > whole:
-            raise Violation("cut/plaintext-prefix", f"returned {len(r.plain)} bytes, only {whole} bytes of whole records were delivered (prefix ok={expected.startswith(r.plain)}); {where}", key=f"C09/aio/{mode}/cut/plaintext-prefix")
+            raise Violation("cut/plaintext-prefix", f"returned {len(r.plain)} bytes, only {whole} bytes of whole records were delivered (prefix ok={expected.startswith(r.plain)}); {where}", key=f"C09/{engine}/{mode}/cut/plaintext-prefix")
         if r.end == ("lib-close",):
             continue
         cn_complete = cn_end is not None and k >= cn_end
         if scn["std"]:
             if r.end == ("eof",) and not cn_complete:
-                raise Violation("cut/truncation-as-clean-eof", f"standard-compatible reader reported a clean end-of-stream without the peer's close_notify; {where}", key=f"C09/aio/{mode}/cut/truncation-as-clean-eof")
+                raise Violation("cut/truncation-as-clean-eof", f"standard-compatible reader reported a clean end-of-stream without the peer's close_notify; {where}", key=f"C09/{engine}/{mode}/cut/truncation-as-clean-eof")
             if cn_complete and r.end != ("eof",):
-                raise Violation("cut/close-notify-not-eof", f"close_notify fully delivered but reader got {r.end}; {where}", key=f"C09/aio/{mode}/cut/close-notify-not-eof")
+                raise Violation("cut/close-notify-not-eof", f"close_notify fully delivered but reader got {r.end}; {where}", key=f"C09/{engine}/{mode}/cut/close-notify-not-eof")
             if r.end[0] not in ("eof", "exc"):
-                raise Violation("cut/no-outcome", f"reader ended with {r.end}; {where}", key=f"C09/aio/{mode}/cut/no-outcome")
+                raise Violation("cut/no-outcome", f"reader ended with {r.end}; {where}", key=f"C09/{engine}/{mode}/cut/no-outcome")
         else:
             if r.end != ("eof",):
-                raise Violation("cut/nonstd-raises", f"standard_compatible=False: abrupt end must be reported as end-of-stream, got {r.end}; {where}", key=f"C09/aio/{mode}/cut/nonstd-raises")
+                raise Violation("cut/nonstd-raises", f"standard_compatible=False: abrupt end must be reported as end-of-stream, got {r.end}; {where}", key=f"C09/{engine}/{mode}/cut/nonstd-raises")
         if not r.lib_sock_closed or not r.second_close_ok:
-            raise Violation("cut/closed", f"after aclose(): socket closed={r.lib_sock_closed} second close prompt={r.second_close_ok}; {where}", key=f"C09/aio/{mode}/cut/closed")
+            raise Violation("cut/closed", f"after aclose(): socket closed={r.lib_sock_closed} second close prompt={r.second_close_ok}; {where}", key=f"C09/{engine}/{mode}/cut/closed")
 
 
 def evidence_extra(merged: dict) -> dict:
@@ -296,6 +399,8 @@ def evidence_extra(merged: dict) -> dict:
 
 
 HARNESSES = [
+    Harness("sync-quick", lambda w: _h_async(w, "quick", "sync"), tiers=("quick",), wall_limit=120.0),
+    Harness("sync-every-offset", lambda w: _h_async(w, "thorough", "sync"), tiers=("thorough",), wall_limit=600.0),
     Harness("aio-quick", lambda w: _h_async(w, "quick"), tiers=("quick",), wall_limit=120.0),
     Harness("aio-every-offset", lambda w: _h_async(w, "thorough"), tiers=("thorough",), wall_limit=600.0),
     Harness("aio-boundaries", lambda w: _h_async(w, "quick"), tiers=("thorough",), wall_limit=120.0),
